@@ -55,7 +55,7 @@ struct C03 : Scenario {
         Json p = Json::object();
         const bool runkind = run % 2 == 1;
         p["scenario"] = "S-RUN"; p["kind"] = runkind ? "run" : "static";
-        GenOpts o; o.max_steps = tier == "thorough" ? 10 : 7; o.max_actions = runkind ? 3 : 2; o.max_udq = 2; o.restart_safe_conditions = false; o.reparent_groups = true; o.late_edits = true;
+        GenOpts o; o.max_steps = tier == "thorough" ? 10 : 7; o.max_actions = runkind ? 3 : 2; o.max_udq = 2; o.restart_safe_conditions = false; o.reparent_groups = true; o.late_edits = true; o.geo_kws = true;
         p["model_seed"] = static_cast<long long>(rng.next() >> 8); p["gen"] = o.to_json(); p["physics_seed"] = static_cast<long long>(rng.next() >> 16);
         p["tail_seed"] = static_cast<long long>(rng.next() >> 8);
         Json ms = Json::array();
@@ -109,7 +109,7 @@ struct C03 : Scenario {
             compared = mon.checks;
             r.counters["probe.mutations_during_run"] = w ? static_cast<long>(w->firings.size()) : 0;
             r.nontrivial = w && !w->firings.empty() && mon.checks > 0;
-            sh.u64(w ? w->firings.size() : 0); for (auto& q : mon.pack_img) oh.u64(q);
+            sh.u64(w ? w->firings.size() : 0); for (auto& q : mon.query_img) oh.u64(q);   /* not pack_img: packed bytes carry shared_ptr identities (heap addresses) */
             sample["mutations"] = static_cast<long long>(w ? w->firings.size() : 0); sample["image_checks"] = static_cast<long long>(mon.checks);
             w.reset();
         } else {
